@@ -68,6 +68,9 @@ sx_enum! {
         // a direct handle minted in a scratch world so that its version equals ours; `idx` class
         // 0: index 0, 1: len-1, 2: len, 3: len+1, 4: capacity-1, 5: capacity, 6/7: index 0 with version -1/+1
         Direct { a: u8, idx: u8 },
+        // a direct handle minted in a world of ANOTHER TYPE (other archetype ids), picked from a
+        // fixed list built from scratch WA / W16 / WZ worlds
+        Alien { n: u32 },
     }
 }
 
